@@ -65,25 +65,39 @@ Embedded(c) == UNION {{c[h].uncles[j].ref : j \in DOMAIN c[h].uncles} : h \in DO
 -----------------------------------------------------------------------------
 (* Uncle rules for the j-th uncle of b (RFC 0020: same epoch and difficulty; lower height; its parent *)
 (* is an ancestor of b or embedded in b or its ancestors as an uncle; b is the first to refer to it).  *)
+(* Uncle headers are not verified as headers: an uncle entry may also be a FABRICATED header ("cs": child of side   *)
+(* block i, "cm": child of main block i, "cc": child of the fabricated header cm(i) with dist 1) that names its    *)
+(* parent by hash, claims the block's own epoch and claims the number parent.number + dist.  Proper descent needs  *)
+(* dist = 1.                                                                                                       *)
 UHdr(c, S, u) ==   \* number / epoch number / parent of the referenced header
-  IF u.ref.k = "s" THEN [number |-> S[u.ref.i].number, epn |-> S[u.ref.i].epn, par |-> S[u.ref.i].par]
-  ELSE [number |-> u.ref.i, epn |-> EpochAt(c, u.ref.i)[1], par |-> [k |-> "m", i |-> u.ref.i - 1]]
+  CASE u.ref.k = "s"  -> [number |-> S[u.ref.i].number, epn |-> S[u.ref.i].epn, par |-> S[u.ref.i].par]
+    [] u.ref.k = "m"  -> [number |-> u.ref.i, epn |-> EpochAt(c, u.ref.i)[1], par |-> [k |-> "m", i |-> u.ref.i - 1]]
+    [] u.ref.k = "cs" -> [number |-> S[u.ref.i].number + u.dist, epn |-> SuccEpoch(EpochAt(c, Len(c)))[1],
+                          par |-> [k |-> "s", i |-> u.ref.i]]
+    [] u.ref.k = "cm" -> [number |-> u.ref.i + u.dist, epn |-> SuccEpoch(EpochAt(c, Len(c)))[1],
+                          par |-> [k |-> "m", i |-> u.ref.i]]
+    [] u.ref.k = "cc" -> [number |-> u.ref.i + 1 + u.dist, epn |-> SuccEpoch(EpochAt(c, Len(c)))[1],
+                          par |-> [k |-> "cm", i |-> u.ref.i]]
+
+\* positions at which b embeds the (unmodified) block `par` as an uncle
+EmbeddedAt(b, par) == {i \in DOMAIN b.uncles : b.uncles[i].ref = par /\ b.uncles[i].v = 0 /\ b.uncles[i].dist = 1}
+ParNumber(S, par) == IF par.k = "s" THEN S[par.i].number ELSE par.i + 1     \* "s": side block; "cm": fabricated child of main i
 
 UncleDescentMust(c, S, b, j) ==
   LET u == b.uncles[j]
       h == UHdr(c, S, u)
   IN \/ u.ref.k = "m"                                     \* an ancestor itself is not an uncle
      \/ /\ h.par.k = "m" /\ ~(h.par.i <= Len(c) /\ h.number = h.par.i + 1)
-     \/ /\ h.par.k = "s"
-        /\ h.par \notin Embedded(c)
-        /\ ~\E i \in DOMAIN b.uncles : b.uncles[i].ref = h.par /\ b.uncles[i].v = 0
+     \/ /\ h.par.k \in {"s", "cm"}
+        /\ \/ h.par \notin Embedded(c) /\ EmbeddedAt(b, h.par) = {}
+           \/ h.number # ParNumber(S, h.par) + 1          \* an embedded parent must be exactly one block lower, too
 (* parent embedded in b itself but listed AFTER the child: the rule does not talk about order *)
 UncleDescentMay(c, S, b, j) ==
   LET u == b.uncles[j]
       h == UHdr(c, S, u)
-  IN /\ u.ref.k = "s" /\ h.par.k = "s" /\ h.par \notin Embedded(c)
-     /\ (\E i \in DOMAIN b.uncles : i > j /\ b.uncles[i].ref = h.par /\ b.uncles[i].v = 0)
-     /\ ~(\E i \in DOMAIN b.uncles : i < j /\ b.uncles[i].ref = h.par /\ b.uncles[i].v = 0)
+  IN /\ h.par.k \in {"s", "cm"} /\ h.par \notin Embedded(c)
+     /\ (\E i \in EmbeddedAt(b, h.par) : i > j)
+     /\ ~(\E i \in EmbeddedAt(b, h.par) : i < j)
 
 -----------------------------------------------------------------------------
 RuleNames == {"number", "parent", "epoch", "ts_median", "ts_future", "target", "cellbase", "roots", "bytes",
@@ -112,7 +126,7 @@ Violated(r, c, S, b) ==
        [] r = "uncle_number"    -> \E j \in DOMAIN us : UHdr(c, S, us[j]).number >= pos
        [] r = "uncle_descent"   -> \E j \in DOMAIN us : UncleDescentMust(c, S, b, j)
        [] r = "uncle_double"    -> (\E j \in DOMAIN us : us[j].v = 0 /\ us[j].ref \in Embedded(c))
-                                   \/ (\E i, j \in DOMAIN us : i # j /\ us[i].ref = us[j].ref /\ us[i].v = us[j].v)
+                                   \/ (\E i, j \in DOMAIN us : i # j /\ us[i].ref = us[j].ref /\ us[i].v = us[j].v /\ us[i].dist = us[j].dist)
        [] r = "uncle_proposals" -> \E j \in DOMAIN us : us[j].pv \notin {"ok", "atlimit"}
        [] r = "commit_window"   -> \E t \in Rng(b.commits) : t \notin Window(c, S, pos)
        [] r = "tx_valid"        -> (\E t \in Rng(b.commits) : t \in Committed(c)) \/ ~NoDup(b.commits)
@@ -135,7 +149,8 @@ Default(c) ==
    target |-> "epoch", props |-> <<>>, commits |-> <<>>, uncles |-> <<>>, cb |-> "ok", roots |-> "ok",
    bytes |-> 0, ext |-> "root", reward |-> "ok", dao |-> "ok"]
 \* v > 0: a DIFFERENT block with the same header fields except the proposals (a sibling of the referenced block)
-U(r) == [ref |-> r, target |-> "epoch", pv |-> "ok", v |-> 0]
+U(r) == [ref |-> r, target |-> "epoch", pv |-> "ok", v |-> 0, dist |-> 1]
+Fab(k, i, d) == [ref |-> [k |-> k, i |-> i], target |-> "epoch", pv |-> "ok", v |-> 0, dist |-> d]
 MainRef(h) == [k |-> "m", i |-> h]
 SideRef(i) == [k |-> "s", i |-> i]
 =============================================================================
